@@ -303,7 +303,7 @@ func nodeForms(p *Program) map[string]types.Type {
 				}
 				if nt, ok := base.(*types.Named); ok && nt.Obj().Pkg() == p.Parser.Types {
 					if _, isStruct := nt.Underlying().(*types.Struct); isStruct {
-						out[nt.Obj().Name()] = t
+						out[canonNodeName(nt.Obj().Name())] = t
 					}
 				}
 			}
